@@ -215,6 +215,15 @@ pub fn operand_alphabet() -> (Vec<D>, Vec<D>) {
         [0., 0., 0., 3., 0., 0., 0., 0., 0., 1.],
         [0., 0., 0., 0., 0., 0., 0., 1., 1., 1.],
         [0., 0., 0., 0., 0., 0., 0., 0., 0., 9007199254740993000.0],
+        // unbalanced multi-field durations (a lower field at or above its carry limit)
+        [0., 0., 0., 0., 1., 90., 0., 0., 0., 0.],
+        [0., 0., 0., 1., 25., 0., 1., 1500., 0., 0.],
+        [0., 0., 0., 0., 0., 59., 60., 0., 0., 0.],
+        [0., 0., 0., 0., 0., 0., 1., 999., 1000., 1000.],
+        [0., 0., 0., 2., 48., 0., 0., 0., 0., 0.],
+        [0., 0., 0., 0., 23., 59., 59., 999., 999., 1000.],
+        [0., 0., 0., 1., 0., 0., 86400., 0., 0., 0.],
+        [0., 0., 0., 0., 0., 1., 0., 60000., 0., 0.],
     ] {
         fs.push(f);
     }
